@@ -281,7 +281,9 @@ pub fn observe(c: &ExecCase, env: &mut ExecEnv) -> String {
     let mut world = make_world(&c.regs, c.map);
     // --- setup (C13)
     let before = world_values(&c.regs, c.map, &world);
-    let r = catch_unwind(AssertUnwindSafe(|| dispatcher.setup(&mut world)));
+    // a case that drives the dispatcher through RunNow also sets it up and disposes it through RunNow
+    let via_trait = c.calls.contains(&'r') || c.next == 'r';
+    let r = catch_unwind(AssertUnwindSafe(|| if via_trait { shred::RunNow::setup(&mut dispatcher, &mut world) } else { dispatcher.setup(&mut world) }));
     s.push_str(&format!("setup={};setupok={};", encode(&rec.take()), if r.is_ok() { 1 } else { 0 }));
     let after = world_values(&c.regs, c.map, &world);
     s.push_str(&format!("setupkeeps={};", if before == after { 1 } else { 0 }));
@@ -375,9 +377,11 @@ pub fn observe(c: &ExecCase, env: &mut ExecEnv) -> String {
     let mut multis = Vec::new();
     multi_subtrees(&c.regs, &mut multis);
     for (i, call) in c.calls.iter().enumerate() {
-        if let Some(o) = &overlap { o.reset(); o.active.store(cfg!(feature = "parallel") && (*call == 'd' || *call == 'p'), Ordering::SeqCst); }
+        if let Some(o) = &overlap { o.reset(); o.active.store(cfg!(feature = "parallel") && (*call == 'd' || *call == 'r' || *call == 'p'), Ordering::SeqCst); }
         let r = catch_unwind(AssertUnwindSafe(|| match call {
             'd' => dispatcher.dispatch(&world),
+            // the dispatcher driven as a system (how an outer dispatcher or generic code runs it)
+            'r' => shred::RunNow::run_now(&mut dispatcher, &world),
             #[cfg(feature = "parallel")]
             'p' => dispatcher.dispatch_par(&world),
             #[cfg(not(feature = "parallel"))]
@@ -400,6 +404,7 @@ pub fn observe(c: &ExecCase, env: &mut ExecEnv) -> String {
             #[cfg(not(feature = "parallel"))]
             'p' => dispatcher.dispatch_seq(&world),
             's' => dispatcher.dispatch_seq(&world),
+            'r' => shred::RunNow::run_now(&mut dispatcher, &world),
             _ => dispatcher.dispatch(&world),
         }));
         let log = fix_multi(rec.take(), &multis);
@@ -427,7 +432,7 @@ pub fn observe(c: &ExecCase, env: &mut ExecEnv) -> String {
                 rec2.seq_inner.store(true, Ordering::SeqCst);
                 for call in &c.calls {
                     match call {
-                        'd' => { d2.dispatch_seq(&w2); d2.dispatch_thread_local(&w2); }
+                        'd' | 'r' => { d2.dispatch_seq(&w2); d2.dispatch_thread_local(&w2); }
                         'p' | 's' => d2.dispatch_seq(&w2),
                         't' => d2.dispatch_thread_local(&w2),
                         _ => {}
@@ -438,7 +443,7 @@ pub fn observe(c: &ExecCase, env: &mut ExecEnv) -> String {
         }
     }
     // --- dispose (C13)
-    let r = catch_unwind(AssertUnwindSafe(|| dispatcher.dispose(&mut world)));
+    let r = catch_unwind(AssertUnwindSafe(|| if via_trait { shred::RunNow::dispose(Box::new(dispatcher), &mut world) } else { dispatcher.dispose(&mut world) }));
     s.push_str(&format!("dispose={};disposeok={};", encode(&rec.take()), if r.is_ok() { 1 } else { 0 }));
     s
 }
